@@ -10,7 +10,7 @@ use crate::{
     engine::{fingerprint, pick},
     refs::{collapse_cr, has_token, is_help_request, ref_classify, ref_frame, ref_tokens, RArg, RefEditor},
     screen::Screen,
-    session::{script_text, CmdSet, Config, EnumSet, GroupSet, Op, OutCall, RawSet, Sess, PROMPTS},
+    session::{effective, fails_parse, script_text, CmdSet, Config, EnumSet, GroupSet, Op, OutCall, RawSet, Sess, PROMPTS},
 };
 
 
@@ -427,7 +427,7 @@ fn do_enter<S: CmdSet>(
     if let Some(call) = new_calls.first() {
         if call.typed.is_ok() && !x.cfg.scripts.is_empty() {
             let sc = x.cfg.scripts[script_idx % x.cfg.scripts.len()].clone();
-            for c in &sc {
+            for c in effective(&sc) {
                 if let OutCall::SetPrompt(i) = c {
                     new_prompt = PROMPTS[*i % PROMPTS.len()];
                 }
@@ -520,8 +520,28 @@ fn do_enter<S: CmdSet>(
                 let (framed, _) = ref_frame(&full);
                 let mut want = b"\r\n".to_vec();
                 want.extend_from_slice(&framed);
+                // a handler that printed something and then rejected the command: the library's own `error:` line follows
+                // the (completed) handler output, on a line of its own
+                let rejected = fails_parse(sc_calls);
+                let mut got_out = collapse_cr(out);
+                let mut error_row: Option<String> = None;
+                if rejected {
+                    let head = collapse_cr(&want);
+                    let tail_ok = got_out.starts_with(&head) && got_out.ends_with(x.prompt.as_bytes());
+                    let mid = if tail_ok { got_out[head.len()..got_out.len() - x.prompt.len()].to_vec() } else { vec![] };
+                    let mid_s = lossy(&mid);
+                    if !tail_ok || !mid_s.starts_with("error:") || !mid_s.ends_with("\r\n") || mid_s.trim_end_matches("\r\n").contains('\n') {
+                        return Err((
+                            format!("{}: the sink receives {:?}, then one `error:` line of the library, then the prompt", what, lossy(&head)),
+                            format!("{:?}", lossy(&got_out)),
+                        ));
+                    }
+                    error_row = Some(mid_s.trim_end_matches("\r\n").to_string());
+                    got_out = head.clone();
+                    got_out.extend_from_slice(x.prompt.as_bytes());
+                }
                 want.extend_from_slice(x.prompt.as_bytes());
-                if collapse_cr(out) != collapse_cr(&want) {
+                if got_out != collapse_cr(&want) {
                     return Err((
                         format!("{}: between the submitted line and the next prompt the sink receives {:?}", what, lossy(&collapse_cr(&want))),
                         format!("{:?}", lossy(&collapse_cr(out))),
@@ -531,6 +551,9 @@ fn do_enter<S: CmdSet>(
                 scn.feed(out);
                 if scn.inconclusive.is_none() {
                     let mut want_rows = text_lines(&full);
+                    if let Some(e) = error_row {
+                        want_rows.push(e);
+                    }
                     want_rows.push(x.prompt.to_string());
                     let got: Vec<String> = (row0 + 1..=scn.row).map(|r| scn.line_text(r)).collect();
                     let w: Vec<&str> = want_rows.iter().map(|s| trimmed(s)).collect();
@@ -540,7 +563,7 @@ fn do_enter<S: CmdSet>(
                     }
                 }
                 let lf_inside = full.trim_end_matches('\n').contains('\n');
-                let split_crlf = sc_calls.windows(2).any(|w| w[0].text().ends_with('\r') && w[1].text().starts_with('\n'));
+                let split_crlf = effective(sc_calls).windows(2).any(|w| w[0].text().ends_with('\r') && w[1].text().starts_with('\n'));
                 if lf_inside || split_crlf {
                     x.stats.nt("C13", fingerprint(&("handler", sc_calls)), || json!({"handler_output": sc_calls, "line": line}));
                 }
@@ -574,16 +597,27 @@ pub fn size_strategy() -> impl Strategy<Value = usize> {
 pub fn out_calls_strategy(allow_set_prompt: bool) -> impl Strategy<Value = Vec<OutCall>> {
     let units: Vec<&'static str> = vec!["", "x", "ok", "line one", "é", "Жук ₿", "\n", "\n", "\r\n", "a b  ", "-", "  ", "\n\n", "tail"];
     let text = proptest::collection::vec(any::<u16>(), 0..4).prop_map(move |sel| sel.into_iter().map(|s| pick(&units, s)).collect::<Vec<_>>().concat());
-    let call = (0u8..10, text.clone(), text, 0usize..5, any::<bool>()).prop_map(move |(k, a, b, p, split)| {
+    let call = (0u8..13, text.clone(), text, 0usize..5, any::<bool>(), any::<u16>()).prop_map(move |(k, a, b, p, split, chs)| {
         let mut a = a;
         if split {
             a.push('\r'); // fixed up below unless the next call starts with LF
         }
+        let ch = pick(&['x', '#', '\n', 'é', '₿', ' ', '.'], chs);
         match k {
             0..=3 => OutCall::WriteStr(a),
             4..=5 => OutCall::WritelnStr(a),
             6 => OutCall::Uwrite(a),
             7..=8 => OutCall::Fmt(a.replace('\r', ""), b),
+            9 => OutCall::UwriteChar(ch),
+            10 => OutCall::FmtChar(ch),
+            11 => {
+                // handler only: print, then reject the command
+                if allow_set_prompt && p < 2 {
+                    OutCall::FailParse
+                } else {
+                    OutCall::UwriteChar(ch)
+                }
+            }
             _ => {
                 if allow_set_prompt {
                     OutCall::SetPrompt(p)
@@ -627,7 +661,7 @@ fn fix_lone_cr(mut calls: Vec<OutCall>) -> Vec<OutCall> {
                             strip(bb, rel - a.len() - 1)
                         }
                     }
-                    OutCall::SetPrompt(_) => false,
+                    OutCall::SetPrompt(_) | OutCall::UwriteChar(_) | OutCall::FmtChar(_) | OutCall::FailParse => false,
                 };
                 if !done {
                     // could not locate it (should not happen): drop all CRs of this call
@@ -637,7 +671,7 @@ fn fix_lone_cr(mut calls: Vec<OutCall>) -> Vec<OutCall> {
                             *a = a.replace('\r', "");
                             *bb = bb.replace('\r', "");
                         }
-                        OutCall::SetPrompt(_) => {}
+                        OutCall::SetPrompt(_) | OutCall::UwriteChar(_) | OutCall::FmtChar(_) | OutCall::FailParse => {}
                     }
                 }
                 break;
